@@ -21,14 +21,14 @@ RULE += (" Chains: stop at k1, continue to k2 (optionally via a checkpoint file,
 RULE += (" Half of the checkpoints are written to a path that already holds an older checkpoint of the same run.")
 REQUIRED = ["chain_intermediate_state", "chain_final_state", "chain_final_result", "chain_final_interpolation", "continue_tighter_tolerance", "continue_structure", "continue_scheme", "continue_result", "continue_points", "restore_identical_result",
             "restore_identical_interpolation", "restored_continue_structure", "restored_continue_result"]
-MIN_NONTRIVIAL = {"quick": 60, "thorough": 800}
+MIN_NONTRIVIAL = {"quick": 60, "thorough": 700}
 CHUNK = {"quick": 3, "thorough": 12}
 ASSUMPTIONS = ["estimators are deterministic functions of the refinement state (the re-entrant loop re-evaluates once)",
                "the history arrays may contain the one extra re-evaluation; they are not compared"]
 
 
 def cases(tier, seed):
-    n = 40 if tier == "quick" else 600
+    n = 52 if tier == "quick" else 600
     out = [{"gen": "dimwise", "seed": case_seed(seed, "C14", "dimwise", i), "tier": tier} for i in range(n)]
     out += [{"gen": "extsplit", "seed": case_seed(seed, "C14", "extsplit", i), "tier": tier} for i in range(n)]
     return out
